@@ -14,6 +14,14 @@ From TV Require Import Base.Prelude Model.C15_Codec.
 Import ListNotations.
 Open Scope Z_scope.
 
+Inductive val :=
+| VInt (x : Z)
+| VBytes (b : list Z)
+| VPair (a b : val)
+| VNil | VCons (h t : val)
+| VNone | VSome (v : val)
+| VTag (t : Z) (v : val).
+
 Inductive fmt :=
 | FU (n : Z)                       (* p.get(n) / w.add(x,n): n-byte big-endian unsigned integer *)
 | FConst (n : Z) (c : Z)           (* an n-byte integer that must equal c (message type, curve_type 3, ...) *)
@@ -24,15 +32,9 @@ Inductive fmt :=
                                       (startLengthCheck/stopLengthCheck, or a sub-Parser that must be emptied) *)
 | FRep (f : fmt)                   (* `while not at end: f` *)
 | FOpt (f : fmt)                   (* nothing left -> None, otherwise f (optional tail / "empty payload") *)
-| FTag (n : Z) (sel : Z -> fmt).   (* n-byte tag t, then the format selected by t (extension dispatch) *)
-
-Inductive val :=
-| VInt (x : Z)
-| VBytes (b : list Z)
-| VPair (a b : val)
-| VNil | VCons (h t : val)
-| VNone | VSome (v : val)
-| VTag (t : Z) (v : val).
+| FTag (n : Z) (sel : Z -> fmt)    (* n-byte tag t, then the format selected by t (extension dispatch) *)
+| FCheck (p : val -> bool) (f : fmt)   (* f restricted to the values satisfying p (a parser-side domain rule,
+                                          e.g. "no two extensions of the same type"): both directions refuse others *).
 
 (* derived forms *)
 Definition FVar (ll : Z) : fmt := FBounded ll (FRest 0 None).                 (* getVarBytes(ll) *)
@@ -77,6 +79,7 @@ Fixpoint encode (f : fmt) (v : val) {struct f} : res (list Z) :=
   | FTag n sel => match v with
                   | VTag t v1 => x <- w_add [] t n ;; y <- encode (sel t) v1 ;; Ok (x ++ y)
                   | _ => Err TypeError end
+  | FCheck p f1 => if p v then encode f1 v else Err ValueError
   end.
 
 (* ---- decoder -------------------------------------------------------------- *)
@@ -126,6 +129,7 @@ Fixpoint decode (f : fmt) (bs : list Z) {struct f} : res (val * list Z) :=
                end
   | FTag n sel => '(a, r) <- take n bs ;;
                   '(v, r2) <- decode (sel (be_val a)) r ;; Ok (VTag (be_val a) v, r2)
+  | FCheck p f1 => '(v, r) <- decode f1 bs ;; if p v then Ok (v, r) else Err DecodeError
   end.
 
 (* ---- static classification of formats ------------------------------------- *)
@@ -138,6 +142,7 @@ Fixpoint nonempty (f : fmt) : bool :=
   | FTag n _ => 0 <? n
   | FSeq f1 f2 => nonempty f1 || nonempty f2
   | FRep _ | FOpt _ => false
+  | FCheck _ f1 => nonempty f1
   end.
 
 (* self-delimiting: what it consumes is determined by the bytes it consumes *)
@@ -147,6 +152,7 @@ Fixpoint delim (f : fmt) : Prop :=
   | FRest _ _ | FRep _ | FOpt _ => False
   | FSeq f1 f2 => delim f1 /\ delim f2
   | FTag _ sel => forall t, delim (sel t)
+  | FCheck _ f1 => delim f1
   end.
 
 (* well-formed format terms: the side conditions under which the grammar is
@@ -160,6 +166,7 @@ Fixpoint wf_fmt (f : fmt) : Prop :=
   | FRep f1 => delim f1 /\ nonempty f1 = true /\ wf_fmt f1
   | FOpt f1 => nonempty f1 = true /\ wf_fmt f1
   | FTag n sel => 0 <= n /\ forall t, wf_fmt (sel t)
+  | FCheck _ f1 => wf_fmt f1
   end.
 
 (* ---- the specification of "fits": written directly, not via encode --------- *)
@@ -173,6 +180,7 @@ Fixpoint vsize (f : fmt) (v : val) {struct f} : Z :=
                   match v with VCons h t => vsize f1 h + rep t | _ => 0 end) v
   | FOpt f1 => match v with VSome v1 => vsize f1 v1 | _ => 0 end
   | FTag n sel => match v with VTag t v1 => n + vsize (sel t) v1 | _ => 0 end
+  | FCheck _ f1 => vsize f1 v
   end.
 
 (* a value of the right shape whose every field fits the width the format gives it *)
@@ -190,6 +198,7 @@ Fixpoint wf_val (f : fmt) (v : val) {struct f} : Prop :=
   | FTag n sel => match v with
                   | VTag t v1 => (0 <= n /\ 0 <= t < 256 ^ n) /\ wf_val (sel t) v1
                   | _ => False end
+  | FCheck p f1 => p v = true /\ wf_val f1 v
   end.
 
 (* ---- helpers for the case files ------------------------------------------- *)
@@ -208,6 +217,17 @@ Fixpoint val_eqb (a b : val) : bool :=
 
 Fixpoint vlist (l : list val) : val :=
   match l with [] => VNil | x :: xs => VCons x (vlist xs) end.
+
+(* domain rule of extension lists: no two elements carry the same tag *)
+Fixpoint tags_of (v : val) : list Z :=
+  match v with
+  | VCons (VTag t _) tl => t :: tags_of tl
+  | VCons _ tl => tags_of tl
+  | _ => []
+  end.
+Fixpoint nodupZ (l : list Z) : bool :=
+  match l with [] => true | x :: tl => negb (existsb (Z.eqb x) tl) && nodupZ tl end.
+Definition uniq_tags (v : val) : bool := nodupZ (tags_of v).
 
 (* dispatch table with default, as a function *)
 Fixpoint sel_of (tbl : list (Z * fmt)) (d : fmt) (t : Z) : fmt :=
